@@ -22,7 +22,7 @@ BUDGETS = {'C13': (40, 900, 200)}
 LEVELS = {'C13': 'exploration'}
 PROBES = {'C13': ['producer_blocked_in_put', 'stop_while_producer_blocked', 'stop_while_paused', 'paused',
                   'task_exception', 'source_exception', 'concurrency_changed', 'stop_called', 'app_variant',
-                  'stop_with_item_queued']}
+                  'stop_with_item_queued', 'ended_paused']}
 INFO = {'C13': {
     'rule': 'workload = (K items 0..12, T tasks 1..3, latency per source call and per (task,item), optional exception '
             'in one task call or one source call, controller actions concurrency:=c (0..4) and stop() at drawn virtual '
@@ -41,6 +41,8 @@ LAT = (0.0, 0.01, 0.1, 0.5, 1.0, 3.0)
 
 class Boom(Exception):
     pass
+
+
 
 
 class LogPQ(asyncio.PriorityQueue):
@@ -227,7 +229,8 @@ def run(tape, prop, tier):
             actions = [(w + i * 1e-6, k) for i, (w, k) in enumerate(actions)]
             # the last concurrency action must leave the pipeline unpaused, otherwise "never returns" is by design
             last_c = [a for a in actions if a[1] != 'stop']
-            if last_c and last_c[-1][1] == 0 and not any(a[1] == 'stop' for a in actions):
+            # (when an exception is planned the run may end paused: a failure of an item in flight must surface even then)
+            if last_c and last_c[-1][1] == 0 and not any(a[1] == 'stop' for a in actions) and not (faults_on and tape.chance(1, 2, 'end_paused')):
                 actions.append((last_c[-1][0] + 1.0, tape.choice((1, 2, 3), 'act.resume')))
             workload['actions'] = actions
             target = p
@@ -300,18 +303,24 @@ def run(tape, prop, tier):
                     outcome['raised'] = str(e)
                 outcome['t'] = loop.time()
 
+            finished_normally = False
             try:
                 env.run(main())
+                finished_normally = True
             except SimDeadlock as e:
-                ctx = 'stop' if stopped[0] else ('exception' if h.exc_fired else 'plain')
-                sig = 'hang-after-' + ctx
-                if stopped[0] and h.concurrency_now == 0:
-                    sig += '-while-paused'
-                r.violate(P, 'hang', sig, 'process() never returns (%s); supplied=%d popped=%d done=%s; tasks: %s'
-                          % (e, len(h.supplied), len(h.popped), sum(1 for i in h.done if h.done[i] >= T), ' | '.join(task_stacks(loop))))
+                if h.concurrency_now == 0 and not stopped[0] and not h.exc_fired:
+                    # paused for good and nothing failed: waiting is what pause means
+                    r.probes['ended_paused'] += 1
+                else:
+                    ctx = 'stop' if stopped[0] else ('exception' if h.exc_fired else 'plain')
+                    sig = 'hang-after-' + ctx
+                    if h.concurrency_now == 0:
+                        sig += '-while-paused'
+                    r.violate(P, 'hang', sig, 'process() never returns (%s); supplied=%d popped=%d done=%s; tasks: %s'
+                              % (e, len(h.supplied), len(h.popped), sum(1 for i in h.done if h.done[i] >= T), ' | '.join(task_stacks(loop))))
             except SimBudgetExceeded as e:
                 r.violate(P, 'hang', 'budget', '%s; tasks: %s' % (e, ' | '.join(task_stacks(loop))))
-            else:
+            if finished_normally:
                 r.log('t=%.3f finished %r' % (loop.time(), outcome))
                 # O3/O5: termination semantics
                 if h.exc_fired:
